@@ -39,9 +39,30 @@ def run(tier, rep):
                        "summary": "JSON %s does not convert back to an equal value" % ev.get("json"), "json": ev.get("json"), "back": ev.get("back")})
     recs, _ = vlib.run_vh(["c08-xml", "3000" if thorough else "400"], timeout=3000)
     handle(rep, recs)
+    # XML namespaces (XMLTree.tla): every document of N elements with declarations, re-declarations and shadowing in which
+    # each used URI is bound by exactly one prefix in scope; the declaration-stack design of the code must report the
+    # prefixes as written; replayed on the real reader
+    for n, mod in ((("2", "1"), ("3", "1")) if thorough else (("2", "1"), ("3", "4"))):
+        r = vlib.tlc("MC_XMLTree", "MC_XMLTree.cfg", consts={"N": n, "Variant": '"stack"', "EmitCases": "TRUE", "EmitMod": mod}, timeout=3000)
+        rep.add_tlc("MC_XMLTree(N=%s)" % n, r)
+        if not vlib.tlc_ok(r, "MC_XMLTree"):
+            log(r.out[-3000:])
+            raise vlib.Inconclusive("XMLTree.tla: the declaration-stack design violates %s: specification problem" % r.violated)
+        p = os.path.join(vlib.scratch(), "c08.ns.%s.ndjson" % n)
+        vlib.write_ndjson(p, r.cases)
+        del r.cases[:]
+        recs, _ = vlib.run_vh(["c08-ns", p], timeout=3000)
+        handle(rep, recs)
+    if thorough:   # the two map-based designs the code had before must be refuted by the specification
+        for variant, n in (('"map-leaky"', "2"), ('"map-restore"', "3")):
+            r = vlib.tlc("MC_XMLTree", "MC_XMLTree.cfg", consts={"N": n, "Variant": variant}, timeout=3000)
+            if not r.violated:
+                raise vlib.Inconclusive("XMLTree.tla does not refute the %s design" % variant)
+            rep.notes.append("MC_XMLTree refutes the %s design at N=%s (%s)" % (variant, n, r.violated))
     rep.cov["rule"] = ("JSON: every value of depth<=1 (width<=2/3, keys {'',a,b}, scalars null/true/0/1.5/''/x) as token stream; TLC checks "
                        "ToTokens(Build(v)) = v on the reader/marshal model; each replayed on the real JSONStreamReader + J2NodeToInterface/JSONify2 + "
                        "the copy function through a Transform, in a plain and a payload-substituted rendering (unicode, escapes, -0, 1e3, 2^53+1, 1e308); "
                        "random values up to depth 4 re-built by TLC. XML: hand-written and random documents (attributes, default/prefixed namespaces, "
-                       "mixed content, CDATA, entities, comments, PIs) compared with an independent DOM. non-trivial: depth>=2 / empty key / namespace prefix")
+                       "mixed content, CDATA, entities, comments, PIs) compared with an independent DOM; namespaces: every document of 2 (3: sampled 1/4 quick, all thorough) "
+                       "elements over prefixes {none,p,q}, URIs {u,v}, declarations on any element (XMLTree.tla), prefixes as written expected. non-trivial: depth>=2 / empty key / namespace prefix")
     rep.cov["exhaustive"] = True
